@@ -120,3 +120,37 @@ PROPS["C09"] = {
     ],
     "floors": {"any": {"lookups": 20000, "present_probes": 10000, "probe_equal_subterm": 500, "probe_renamed": 1000, "probe_created_class": 500, "slot_sets_vs_oracle": 5000}},
 }
+
+PROPS["C16"] = {
+    "rule": "cases: e-node values of four derived languages (LSym, LArith, LPay, LNest: plain slots, Bind<AppliedId>, Bind<Bind<..>>, Bind<Slot>, binder after/before/between free "
+            "positions, payload types u32/i64/bool/char/Symbol) built from syntax elements; (exhaustive, shard 0) every slot assignment from a three-name alphabet for every "
+            "variant, (random) alphabets of 2-6 names with repeats and shadowing. Per node: to_syntax/from_syntax round trip, occurrence lists and slots() against an independent "
+            "scoping model, weak_shape invariance under bijective and alpha renaming, shape equality <=> model key equality (global tables), shape idempotence, bijection domain/range, "
+            "apply_slotmap(bij) restores the node. Non-trivial = distinct canonical shapes observed (each shape is one equivalence class of nodes).",
+    "exhaustive": {"quick": False, "thorough": False},
+    "assumptions": ["the independent scoping model in harness/src/props/c16.rs (innermost binder wins, a binder scopes over its own field only)"],
+    "quick": [{"variant": "default", "cases": 12000, "timeout": 600}],
+    "thorough": [{"variant": "default", "cases": 1500000, "timeout": 3000}, {"variant": "checks", "cases": 200000, "timeout": 3000}],
+    "floors": {"any": {"nodes_checked": 100000, "nodes_with_shadowing": 5000, "nodes_with_repeated_slot": 20000, "nodes_exhaustive": 5000, "distinct_shapes": 5000}},
+}
+PROPS["C17"] = {
+    "rule": "cases: one interleaving of 200 events in a fresh thread: Slot::fresh, Slot::numeric (incl. the top of the range), Slot::named over hostile names (f<n> below/at/above the "
+            "fresh counter, leading zeros, '+5', numerals beyond 2^30, unicode), RecExpr::parse of texts with such names, and e-graph insertions/unions that draw fresh slots "
+            "internally. A recorder holds every slot and name seen: fresh() must be new, must not print as a used or numeric name, name->slot and slot->name must be functions, "
+            "print/parse must round-trip, internally invented (non-numeric) slots must be new to the user. The hygiene lane replays C11-style histories with user slots named f0..f9 "
+            "and $0..$9 against a neutral naming. Non-trivial = distinct interleaving (hash of its log) containing all event kinds.",
+    "assumptions": ["numeric names inside stored e-nodes are canonical shape names of bound slots; their harmlessness is judged by the behavioural hygiene lane"],
+    "quick": [{"variant": "default", "cases": 2500, "params": {"len": 200}, "timeout": 600}],
+    "thorough": [{"variant": "default", "cases": 300000, "params": {"len": 300}, "timeout": 3000}],
+    "floors": {"any": {"events": 100000, "fresh_calls": 10000, "names_recorded": 50000}},
+}
+PROPS["C18"] = {
+    "rule": "cases: per case one language (LSym, LArith, LPay, LNest), 6 generated terms, 6 generated patterns (pattern variables, nested b[x := t]), 3 multi-patterns, each checked for "
+            "parse(print(x)) == x, print == harness printer, term/pattern readings agree; then 60 texts obtained from the corpus by truncation, token deletion/duplication/swap, "
+            "bracket flips, splicing and random characters are given to RecExpr/Pattern/MultiPattern::parse: no panic, Ok values have as many children as their operator takes and "
+            "are stable under their own print/parse. Payloads obey the statement's side condition. Non-trivial = distinct corpus (hash).",
+    "assumptions": ["payloads containing '==' or ',' are excluded from multi-patterns (they do not print unambiguously there)"],
+    "quick": [{"variant": "default", "cases": 6000, "timeout": 600}],
+    "thorough": [{"variant": "default", "cases": 800000, "timeout": 3000}, {"variant": "checks", "cases": 100000, "timeout": 3000}],
+    "floors": {"any": {"term_roundtrips": 10000, "pattern_roundtrips": 10000, "subst_patterns": 1000, "multipattern_roundtrips": 5000, "arbitrary_texts": 100000, "arbitrary_accepted": 5000}},
+}
